@@ -175,7 +175,8 @@ def check(run, model, tier):
     # number branch: `signal in signals.values()` -> self.signal = signal ; name from the matching key
     tnum = [t for t in g2.nodes if t.kind == 'test' and isinstance(t.ast, ast.Compare) and isinstance(t.ast.ops[0], ast.In)
             and norm(t.ast.comparators[0]) in ('signals.values()', 'list(signals.values())')]
-    tstr = [t for t in g2.nodes if t.kind == 'test' and isinstance(t.ast, ast.Call) and norm(t.ast.func) == 'isinstance' and 'str' in norm(t.ast)]
+    from sa.util import strip_not as _sn
+    tstr = [t for t in g2.nodes if t.kind == 'test' and isinstance(_sn(t.ast)[0], ast.Call) and norm(_sn(t.ast)[0].func) == 'isinstance' and 'str' in norm(t.ast)]
     run.inst('REG.inverse', ei, 'Event(number) branch tests membership in signals.values()', len(tnum) == 1, 'number branch not found', obligation=True)
     run.inst('REG.inverse', ei, 'Event(name) branch tests isinstance(signal, str)', len(tstr) == 1, 'name branch not found', obligation=True)
     if len(tnum) == 1 and len(tstr) == 1:
